@@ -103,4 +103,23 @@ theorem lexAux_no_pre (d : Delims) : ∀ (n : Nat) (s : List Char), s.length ≤
 theorem lex_no_pre' (d : Delims) (s : List Char) (h : ¬ d.pre <:+: s) : Tok.pre ∉ lex d s :=
   lexAux_no_pre d s.length s (Nat.le_refl _) h
 
+/-- clean tokens are lexed back from their rendering, whatever characters follow -/
+theorem lex_unlex_append {d : Delims} (hd : d.LexOK) : ∀ (t : Toks), Over (CleanTok d) t → ∀ r : List Char,
+    lex d (unlex d t ++ r) = t ++ lex d r := by
+  intro t
+  induction t with
+  | nil => intro _ r; rfl
+  | cons x t ih =>
+    intro h r
+    have := lex_unlexTok hd h.head (unlex d t ++ r)
+    unfold lex at ih ⊢
+    rw [unlex, List.append_assoc, this, ih h.tail r]
+    rfl
+
+/-- lexing is a homomorphism behind a string that lexes to clean tokens -/
+theorem lex_append_of_clean' {d : Delims} (hd : d.LexOK) (s₁ s₂ : List Char) (h : Over (CleanTok d) (lex d s₁)) :
+    lex d (s₁ ++ s₂) = lex d s₁ ++ lex d s₂ := by
+  have := lex_unlex_append hd (lex d s₁) h s₂
+  rwa [unlex_lex'] at this
+
 end Ytk.Resolver
